@@ -145,6 +145,21 @@ theorem not_after_expiry (allowIp : Bool) (now0 : Int) (ops : List Op)
   obtain ⟨e, he, hn, hv, _, _, _, _, hx⟩ := sent_only_in_recorded_scope allowIp now0 ops hops host rpath sec n v h
   exact ⟨e, he, hn, hv, hx⟩
 
+/-- **Eviction is complete, whatever the heap went through.** After any history — including
+every heap clean-up (`> 100` entries and `> 2 ×` live deadlines) at any moment relative to
+the deadlines — once `_do_expiration` has run at time `now`, no stored cookie has a recorded
+deadline `≤ now`: a due entry is never lost from the heap before it is acted on. (Seeded
+defect C16-10 breaks exactly this: a clean-up that also drops due entries.) -/
+theorem eviction_complete (allowIp : Bool) (now0 : Int) (ops : List Op) (k : Key) (w : Int)
+    (h : aget k (seen allowIp now0 ops).expirations = some w) : (after allowIp now0 ops).now < w :=
+  doExpiration_noExpired _ _ (after_inv allowIp now0 ops) k w h
+
+/-- the clean-up keeps every live heap entry (one whose deadline is the recorded one) -/
+theorem cleanup_keeps_live_entries (allowIp : Bool) (now0 : Int) (ops : List Op) (k : Key) (w : Int)
+    (h : aget k (after allowIp now0 ops).jar.expirations = some w) :
+    (w, k) ∈ cleanedHeap (after allowIp now0 ops).jar :=
+  cleanedHeap_mem _ k w ((after_inv allowIp now0 ops).heap k w h) h
+
 /-- **Nothing in scope is withheld.** Every stored, unexpired cookie that passes the scope
 test has its *name* attached (the result is a name-keyed map, so of several cookies with one
 name one value is visible). -/
